@@ -272,4 +272,117 @@ theorem aggregate_total {W : Colls} {seen : List (Req × Forest)} {s : AggState}
           obtain ⟨s', hs'⟩ := after s1
           exact ⟨s', by simp only [run_bind, h1, hs']⟩
 
+/-! ### the whole list -/
+
+/-- every requirement agrees with the semver-compatible requirements before it -/
+def CompatFrom : List (Req × Forest) → List (Req × Forest) → Prop
+  | _, [] => True
+  | seen, p :: cs => (∀ q, q ∈ seen → compat q.1.1 p.1.1 = true → Consistent q.2 p.2) ∧ CompatFrom (p :: seen) cs
+
+/-- **`aggregateAll` on the fragment is total** and succeeds exactly when every requirement agrees
+with the semver-compatible requirements before it -/
+theorem aggregateAll_total {W : Colls} : ∀ (cs : List (Req × Forest)) (seen : List (Req × Forest)) (s : AggState),
+    GInv W seen s → s.cfg.remapReplaced = true → (∀ p, p ∈ cs → FlatReq p.1 p.2 ∧ W.mem p.1.2.1) →
+    (∀ p, p ∈ cs → ∀ q, q ∈ seen → q.1.2.1.uid ≠ p.1.2.1.uid) →
+    cs.Pairwise (fun a b => a.1.2.1.uid ≠ b.1.2.1.uid) →
+    ((∃ s', aggregateAll (cs.map (·.1)) s = .ok s') ↔ CompatFrom seen cs) ∧
+      (∀ e, aggregateAll (cs.map (·.1)) s = .error e → ∃ m, e = .err m)
+  | [], seen, s, _, _, _, _, _ => by
+    simp only [List.map_nil, aggregateAll, CompatFrom, iff_true, reduceCtorEq, false_implies, implies_true, and_true]
+    exact ⟨s, rfl⟩
+  | p :: cs, seen, s, hG, hcfg, hfl, hfr, hpw => by
+    rw [List.map_cons, aggregateAll_cons]
+    rw [List.pairwise_cons] at hpw
+    obtain ⟨hp1, hp2⟩ := hfl p List.mem_cons_self
+    obtain ⟨hdisj, hiff⟩ := aggregate_total hG hcfg hp1 hp2 (fun _ q hq => hfr p List.mem_cons_self q hq)
+    cases ha : aggregate p.1.1 p.1.2.1 p.1.2.2 s with
+    | error e =>
+      simp only [CompatFrom]
+      refine ⟨⟨(fun ⟨s', h⟩ => by cases h), (fun hc => ?_)⟩, fun e' he' => ?_⟩
+      · obtain ⟨s', hs'⟩ := hiff.2 hc.1
+        rw [ha] at hs'; cases hs'
+      · cases he'
+        rcases hdisj with ⟨s', hs'⟩ | ⟨m, hm⟩
+        · rw [ha] at hs'; cases hs'
+        · rw [ha] at hm; cases hm; exact ⟨m, rfl⟩
+    | ok us =>
+      obtain ⟨u, s1⟩ := us
+      have hau : aggregate p.1.1 p.1.2.1 p.1.2.2 s = .ok ((), s1) := by cases u; exact ha
+      obtain ⟨hG1, hcf⟩ := ginv_step hG hp1 hp2 (fun _ q hq => hfr p List.mem_cons_self q hq) hau
+      have ih := aggregateAll_total cs ((p.1, p.2) :: seen) s1 hG1 (by rw [hcf]; exact hcfg)
+        (fun q hq => hfl q (List.mem_cons_of_mem _ hq))
+        (by
+          intro q hq q' hq'
+          rcases List.mem_cons.1 hq' with rfl | hq'
+          · exact hpw.1 q hq
+          · exact hfr q (List.mem_cons_of_mem _ hq) q' hq')
+        hpw.2
+      simp only [CompatFrom]
+      refine ⟨⟨(fun h => ⟨hiff.1 ⟨s1, hau⟩, ih.1.1 h⟩), (fun hc => ih.1.2 hc.2)⟩, ih.2⟩
+
+/-- the order-independent reading: any two semver-compatible requirements agree on shared names -/
+def CompatAll (cs : List (Req × Forest)) : Prop :=
+  ∀ p q, p ∈ cs → q ∈ cs → compat q.1.1 p.1.1 = true → Consistent q.2 p.2
+
+theorem Consistent.symm {F G : Forest} (h : Consistent F G) : Consistent G F :=
+  fun k tg tf hg hf => (h k tf tg hf hg).symm
+
+theorem Consistent.refl (F : Forest) : Consistent F F := fun k t t' h h' => by rw [h] at h'; exact Option.some.inj h'
+
+theorem compat_comm (a b : Str) : compat a b = compat b a := by
+  unfold compat
+  by_cases h : a = b
+  · subst h; rfl
+  · have h1 : (a == b) = false := by simpa using h
+    have h2 : (b == a) = false := by simpa using fun e => h e.symm
+    simp only [h1, h2, Bool.false_eq_true, ↓reduceIte]
+    cases altKey a <;> cases altKey b <;> simp only
+    rename_i x y
+    exact Bool.eq_iff_iff.2 ⟨fun h => by simpa using (by simpa using h : x.1 = y.1).symm,
+      fun h => by simpa using (by simpa using h : y.1 = x.1).symm⟩
+
+theorem compatFrom_iff (cs : List (Req × Forest)) :
+    ∀ seen, CompatFrom seen cs ↔
+      (∀ p q, p ∈ cs → q ∈ seen → compat q.1.1 p.1.1 = true → Consistent q.2 p.2) ∧
+      cs.Pairwise (fun q p => compat q.1.1 p.1.1 = true → Consistent q.2 p.2) := by
+  induction cs with
+  | nil => intro seen; simp [CompatFrom]
+  | cons a cs ih =>
+    intro seen
+    simp only [CompatFrom, ih, List.pairwise_cons, List.mem_cons]
+    constructor
+    · rintro ⟨h1, h2, h3⟩
+      refine ⟨?_, ⟨fun p hp => h2 p a hp (.inl rfl), h3⟩⟩
+      rintro p q (rfl | hp) hq hc
+      · exact h1 q hq hc
+      · exact h2 p q hp (.inr hq) hc
+    · rintro ⟨h1, h2, h3⟩
+      refine ⟨fun q hq hc => h1 a q (.inl rfl) hq hc, ?_, h3⟩
+      rintro p q hp (rfl | hq) hc
+      · exact h2 p hp hc
+      · exact h1 p q (.inr hp) hq hc
+
+theorem compatFrom_nil_iff (cs : List (Req × Forest)) : CompatFrom [] cs ↔ CompatAll cs := by
+  rw [compatFrom_iff]
+  constructor
+  · rintro ⟨_, hpw⟩ p q hp hq hc
+    -- positions: either one is earlier, or they are the same element
+    have key : ∀ (l : List (Req × Forest)), l.Pairwise (fun q p => compat q.1.1 p.1.1 = true → Consistent q.2 p.2) →
+        ∀ p q, p ∈ l → q ∈ l → compat q.1.1 p.1.1 = true → Consistent q.2 p.2 := by
+      intro l
+      induction l with
+      | nil => intro _ p q hp; cases hp
+      | cons a l ih =>
+        intro hl p q hp hq hc
+        rw [List.pairwise_cons] at hl
+        rcases List.mem_cons.1 hp with hp' | hp' <;> rcases List.mem_cons.1 hq with hq' | hq'
+        · rw [hp', hq']; exact Consistent.refl _
+        · subst hp'; exact (hl.1 q hq' (by rw [compat_comm]; exact hc)).symm
+        · subst hq'; exact hl.1 p hp' hc
+        · exact ih hl.2 p q hp' hq' hc
+    exact key cs hpw p q hp hq hc
+  · intro h
+    refine ⟨(fun p q _ hq => by cases hq), ?_⟩
+    exact List.pairwise_of_forall_mem_list (fun a ha b hb hc => h b a hb ha hc)
+
 end Wac.AggP
